@@ -238,11 +238,17 @@ def run_case(rng, cnt, cfg=None):
                 cnt("resumed_from_checkpoint")
             warm = it < n_warm
             if warm:
+                # the redraw loop of /repo 959029e: 0..2 batches WITHOUT a finite draw come first and are discarded
+                n_dead = rng.choice([0, 0, 0, 1, 1, 2])
+                dead = [fresh(n) for _ in range(n_dead)]
+                for b_ in dead:
+                    env.infset |= set(b_)
+                    allinf |= set(b_)
                 tags = fresh(n)
                 frac = rng.choice([0.0, 0.0, 0.3, 0.6, 0.9])
                 inf_local = [k for k in range(n) if rng.random() < frac]
                 if len(inf_local) == n:
-                    inf_local.pop()          # a batch without a finite draw is C11's subject (known finding F8)
+                    inf_local.pop()          # the batch that ends the loop has a finite draw
                 env.infset |= {tags[k] for k in inf_local}
                 allinf |= {tags[k] for k in inf_local}
                 picks = []
@@ -252,12 +258,24 @@ def run_case(rng, cnt, cfg=None):
                     pk = [int(a[rng.randrange(len(a))]) for _ in range(size)]
                     picks.extend(pk)
                     return np.array(pk, dtype=int)
-                U = np.array([u_of(t, d) for t in tags])
+                batches = [np.array([u_of(t, d) for t in b_]) for b_ in dead + [tags]]
+                handed = []
+
+                def fake_rand(*shape):
+                    handed.append(1)
+                    return batches[len(handed) - 1].copy()
+                calls0 = env.state.get_current("calls")
                 env.script = {"beta": 0.0, "weights": np.ones(max(pool_size, 1)) / max(pool_size, 1)}
-                with common.patched(np.random, "rand", lambda *shape: U.copy()), \
+                with common.patched(np.random, "rand", fake_rand), \
                         common.patched(np.random, "choice", fake_choice):
                     ret = env.s.sample()
-                tapes.append("W:" + ",".join(map(str, tags)) + ":" + (",".join(map(str, picks)) if picks else "-"))
+                if len(handed) != len(batches):
+                    raise AssertionError(f"warm-up drew {len(handed)} batches, the script has {len(batches)}")
+                if env.state.get_current("calls") - calls0 != n * len(batches):
+                    raise AssertionError("warm-up: calls did not grow by n_particles per drawn batch")
+                tapes.append("W:" + "/".join(",".join(map(str, b_)) for b_ in dead + [tags]) + ":" +
+                             (",".join(map(str, picks)) if picks else "-"))
+                cnt(f"warmup_redraws={n_dead}")
                 if inf_local:
                     cnt("warmup_with_replacement")
             else:
@@ -279,8 +297,7 @@ def run_case(rng, cnt, cfg=None):
 
                 def fake_rand(*shape):
                     bits = [rng.random() < 0.55 for _ in range(n)]
-                    steps.append(([r.copy() for r in cur["raw"]],
-                                  [b and (t not in cur["inf"]) for b, t in zip(bits, cur["tags"])]))
+                    steps.append(([r.copy() for r in cur["raw"]], list(bits)))     # raw bits: the model rejects -inf proposals itself
                     return np.array([0.0 if b else 1.0 for b in bits])
 
                 ctx = [common.patched(runner_cls, "_propose", fake_propose), common.patched(np.random, "rand", fake_rand)]
@@ -308,6 +325,8 @@ def run_case(rng, cnt, cfg=None):
                 cnt(f"mcmc_passes={min(len(steps), 4)}{'+' if len(steps) > 4 else ''}")
                 if any(any(a) and not all(a) for _, a in steps):
                     cnt("mixed_mask")
+                if cur.get("inf"):
+                    cnt("pass_with_minus_inf_proposal")
             rets.append(frows(None if ret["blobs"] is None else np.asarray(ret["blobs"]).reshape(n, -1)[:, 0], fq))
             # the dictionary sample() returned must be the current record set
             live = env.state.get_current()
@@ -597,7 +616,9 @@ def oracle_sm(rng, n_cases):
                     return f"{where} row {i}: x != T(u)"
                 if not all(0 <= q <= 1 for q in uu):
                     return f"{where} row {i}: u outside the cube"
-                if l != "ninf" and Fraction(l) != -(xx[0] + 5) * 3 - 1:
+                if l == "ninf":
+                    return f"{where} row {i}: a particle with logl = -inf is stored"
+                if Fraction(l) != -(xx[0] + 5) * 3 - 1:
                     return f"{where} row {i}: logl != L(x)"
                 if cfg["blobmode"] != "none":
                     if bs is None or i >= len(bs) or Fraction(bs[i]) != xx[0] * 2 + 7:
@@ -622,7 +643,9 @@ def oracle_sm(rng, n_cases):
                 xs, ls, bs, _lw = q.split("|")
                 for i, (x, l) in enumerate(zip(xs.split(","), ls.split(","))):
                     xx = [Fraction(v) for v in x.split("_")]
-                    if l != "ninf" and Fraction(l) != -(xx[0] + 5) * 3 - 1:
+                    if l == "ninf":
+                        bad = f"posterior row {i}: a particle with logl = -inf is returned"
+                    elif Fraction(l) != -(xx[0] + 5) * 3 - 1:
                         bad = f"posterior row {i}: logl != L(x)"
                     if bs not in ("N", "-") and Fraction(bs.split(",")[i]) != xx[0] * 2 + 7:
                         bad = f"posterior row {i}: blob != blob(x)"
